@@ -2,6 +2,7 @@ package main
 
 import (
 	"fmt"
+	"go/ast"
 	"go/token"
 	"go/types"
 	"strings"
@@ -124,6 +125,7 @@ func checkC06(w *World, r *Run) {
 			r.Check(plusOne, ruleLimit, shortSQLFunc(fn)+" → "+c.Common().Method.Name(), posOf(c), "limit = page size + 1", "the LIMIT passed is not <page size>+1: a full page cannot be told from a truncated one")
 		})
 	}
+	checkC06Markers(w, r)
 	r.NotCovered("behaviour of the paging loops over all key sets and page sizes; collation of key comparison in the database (binary vs locale); common-prefix roll-up arithmetic")
 }
 
@@ -302,4 +304,88 @@ func firstDiff(a, b string) string {
 		eb = len(b)
 	}
 	return "…" + a[s:ea] + "… vs pgx …" + b[s:eb] + "…"
+}
+
+// checkC06Markers: a listing that continues from a composite position (key marker + version
+// id marker) must move both components together; a page that advances only the key re-reads
+// the remaining versions of that key on the next page.
+func checkC06Markers(w *World, r *Run) {
+	rule := r.Rule("composite-continuation-markers-advance-together", "F3",
+		"in ListObjectVersions every assignment to the variable that becomes NextKeyMarker is accompanied, in the same block, by an assignment to the variable that becomes NextVersionIDMarker (and vice versa)", 3)
+	f := w.Func(relSQLStore, "sqlMetadataStore.ListObjectVersions")
+	fd := w.Decl(f)
+	if fd == nil {
+		r.Anchor(rule, "sqlMetadataStore.ListObjectVersions")
+		return
+	}
+	info := w.InfoFor(fd)
+	// variables feeding the two result fields (one hop through next…Marker locals)
+	feeds := func(field string) map[types.Object]bool {
+		out := map[types.Object]bool{}
+		var viaLocal []types.Object
+		ast.Inspect(fd.Body, func(n ast.Node) bool {
+			if kv, ok := n.(*ast.KeyValueExpr); ok {
+				if id, ok := kv.Key.(*ast.Ident); ok && id.Name == field {
+					if v, ok := kv.Value.(*ast.Ident); ok {
+						viaLocal = append(viaLocal, info.ObjectOf(v))
+					}
+				}
+			}
+			return true
+		})
+		for _, l := range viaLocal {
+			out[l] = true
+		}
+		ast.Inspect(fd.Body, func(n ast.Node) bool {
+			if as, ok := n.(*ast.AssignStmt); ok && len(as.Lhs) == 1 && len(as.Rhs) == 1 {
+				if l, ok := as.Lhs[0].(*ast.Ident); ok && out[info.ObjectOf(l)] {
+					if rv, ok := as.Rhs[0].(*ast.Ident); ok && info.ObjectOf(rv) != nil {
+						if _, isVar := info.ObjectOf(rv).(*types.Var); isVar {
+							out[info.ObjectOf(rv)] = true
+						}
+					}
+				}
+			}
+			return true
+		})
+		return out
+	}
+	keyVars, verVars := feeds("NextKeyMarker"), feeds("NextVersionIDMarker")
+	if len(keyVars) == 0 || len(verVars) == 0 {
+		r.Anchor(rule, "ListObjectVersions NextKeyMarker / NextVersionIDMarker")
+		return
+	}
+	// per block: which marker families are assigned
+	n := 0
+	var visit func(b *ast.BlockStmt)
+	visit = func(b *ast.BlockStmt) {
+		k, v := false, false
+		var pos token.Pos
+		for _, st := range b.List {
+			if as, ok := st.(*ast.AssignStmt); ok {
+				for _, l := range as.Lhs {
+					if id, ok := l.(*ast.Ident); ok {
+						if keyVars[info.ObjectOf(id)] {
+							k, pos = true, as.Pos()
+						}
+						if verVars[info.ObjectOf(id)] {
+							v, pos = true, as.Pos()
+						}
+					}
+				}
+			}
+		}
+		if k || v {
+			n++
+			r.Check(k && v, rule, fmt.Sprintf("ListObjectVersions marker update #%d", n), pos, "key marker and version-id marker assigned together", "only one component of the continuation position is advanced in this block: the next page resumes at (new key, stale version id) or (stale key, new version id) and repeats or skips versions / common prefixes")
+		}
+		ast.Inspect(b, func(m ast.Node) bool {
+			if inner, ok := m.(*ast.BlockStmt); ok && inner != b {
+				visit(inner)
+				return false
+			}
+			return true
+		})
+	}
+	visit(fd.Body)
 }
